@@ -109,7 +109,7 @@ theorem writer_exited_of_nil {s : State} (h1 : Inv1 s) (hd : s.ochan = .nil) : s
     have h3 := h1.some_ w hw
     have ho := h3.2.2.2.2.2.2.2.1
     rw [hd] at ho
-    have hg : (phaseOf w.pc).gone = true := by
+    have hg : (phaseOf w.graceful w.pc).gone = true := by
       cases hp : w.pc <;> simp [hp, phaseOf] at ho ⊢
     exact (h3.2.2.2.2.2.1 hg).1
 
@@ -294,6 +294,8 @@ theorem inv3_step {cfg : Cfg} {s s' : State} (a : Action) (h1 : Inv1 s) (h2 : In
   case wWrite => exact inv3_wWrite h hs
   case wFlush => exact inv3_wFlush h1 h hs
   case wWgDone => exact inv3_wWgDone h hs
+  case rArm => unfold stepRArm at hs; inv3_other h hs
+  case rChk => unfold stepRChk at hs; inv3_other h hs
   case rFrame => unfold stepRFrame at hs; inv3_other h hs
   case rErr => unfold stepRErr at hs; inv3_other h hs
   case rNil => unfold stepRNil at hs; inv3_other h hs
